@@ -254,4 +254,167 @@ def smFromQualifier (q : List String) : E (List SMDom) := do
   let ds ← smParseAll q
   pure (smAdd [] ds)
 
+/-! ### domains and motifs: `AntismashFeature` → `Domain` → `AntismashDomain` / `CDSMotif` -/
+
+inductive DomKind where
+  /-- `AntismashDomain` whose tool has no registered subtype; feature type `aSDomain` -/
+  | asDomain
+  /-- `CDSMotif` with a tool (not `ExternalCDSMotif`, not `Prepeptide`); feature type `CDS_motif` -/
+  | motif
+deriving DecidableEq, Repr, Inhabited
+
+def DomKind.type : DomKind → String
+  | .asDomain => "aSDomain"
+  | .motif => "CDS_motif"
+
+/-- the state of such a feature; `score` is the text `str(float)`, `evalue` the text `f"{x:.2E}"` (three
+    significant digits: what the value is *after* its first round trip) -/
+structure Dom where
+  /-- location, type, notes, `_qualifiers`, `created_by_antismash`, codon start -/
+  feat : Feat
+  tool : String
+  locusTag : String
+  pStart : Int
+  pEnd : Int
+  /-- `Domain.domain` -/
+  domain : Option String := none
+  /-- `asf.hits`: sorted, without duplicates -/
+  asf : List String := []
+  domainId : Option String := none
+  database : Option String := none
+  detection : Option String := none
+  label : Option String := none
+  evalue : Option String := none
+  score : Option String := none
+  /-- `_translation` ("" = not set) -/
+  translation : String := ""
+deriving DecidableEq, Repr, Inhabited
+
+/-- `if value: mine[key] = [value]` -/
+def setOpt (q : Quals) (k : String) (v : Option String) : Quals :=
+  match v with
+  | some s => if s.isEmpty then q else Q.set q k [s]
+  | none => q
+
+/-- `if value is not None: mine[key] = [text]` -/
+def setSome (q : Quals) (k : String) (v : Option String) : Quals :=
+  match v with
+  | some s => Q.set q k [s]
+  | none => q
+
+/-- the `mine` of `Domain.to_biopython` (the subclass adds nothing) -/
+def Dom.mineDomain (d : Dom) : Quals :=
+  let q := Q.set [] "protein_start" [strOfInt d.pStart]
+  let q := Q.set q "protein_end" [strOfInt d.pEnd]
+  let q := setOpt q "aSDomain" d.domain
+  if d.asf.isEmpty then q else Q.set q "ASF" d.asf
+
+/-- the `mine` of `AntismashFeature.to_biopython(qualifiers)` -/
+def Dom.mine (d : Dom) : Quals :=
+  let q := setOpt [] "label" d.label
+  let q := setSome q "score" d.score
+  let q := setSome q "evalue" d.evalue
+  let q := setOpt q "locus_tag" (some d.locusTag)
+  let q := setOpt q "translation" (some d.translation)
+  let q := setOpt q "database" d.database
+  let q := setOpt q "detection" d.detection
+  let q := if d.feat.byAS then setOpt q "domain_id" d.domainId else q
+  let q := setOpt q "aSTool" (some d.tool)
+  Q.update q d.mineDomain
+
+/-- `Domain.to_biopython` -/
+def Dom.toBio (d : Dom) : E Bio := d.feat.toBio d.mine
+
+/-- `leftovers.pop(key, [""])[0]`, the value -/
+def firstOr (q : Quals) (k : String) : E String :=
+  match Q.get? q k with
+  | some (v :: _) => pure v
+  | some [] => throw "IndexError"
+  | none => pure ""
+
+/-- `value or None` -/
+def orNone (s : String) : Option String := if s.isEmpty then none else some s
+/-- `text.replace(" ", "")` -/
+def noSpaces (s : String) : String := String.ofList (s.toList.filter (· != ' '))
+/-- `sorted(set(values))` -/
+def canonSet (l : List String) : List String := sortStrs (dedup l)
+
+/-- `if key in leftovers: float(leftovers.pop(key)[0])` (the text is kept) -/
+def popNumber (q : Quals) (k : String) : E (Option String) :=
+  match Q.get? q k with
+  | some (v :: _) => pure (some v)
+  | some [] => throw "IndexError"
+  | none => pure none
+
+/-- `generate_protein_location_from_qualifiers` for qualifiers that carry `protein_start`; the older
+    format without it (regeneration from the parent CDS) is outside the model -/
+def protLoc (q : Quals) : E (Int × Int) := do
+  let rawStart ← firstOr q "protein_start"
+  let rawEnd ← firstOr q "protein_end"
+  if rawStart.isEmpty then throw "unsupported"
+  else
+    match intOfStr rawStart with
+    | none => throw "value-error"
+    | some s =>
+      let e ←
+        if rawEnd.isEmpty then
+          match Q.get? q "translation" with
+          | some v => pure (s + v.length)
+          | none => throw "KeyError"
+        else match intOfStr rawEnd with
+          | some e => pure e
+          | none => throw "value-error"
+      if e < s then throw "value-error" else pure (s, e)
+
+/-- `AntismashDomain.from_biopython` / `CDSMotif.from_biopython` down to `Feature.from_biopython` -/
+def Dom.fromBio (kind : DomKind) (b : Bio) : E Dom := do
+  let l := b.quals
+  let tool ← match kind with
+    | .asDomain =>
+      match Q.get? l "aSTool" with
+      | none => throw "value-error"
+      | some [] => throw "IndexError"
+      | some (t :: _) => pure t
+    | .motif => do
+      let t ← firstOr l "aSTool"
+      if t.isEmpty then throw "unsupported" else pure t
+  let l := Q.erase l "aSTool"
+  let (ps, pe) ← protLoc l
+  let tag0 ← firstOr l "locus_tag"
+  let l := Q.erase l "locus_tag"
+  let tag := noSpaces (if tag0.isEmpty then "(unknown)" else tag0)
+  -- an empty locus tag: `raise ValueError` in AntismashDomain.from_biopython, `assert locus_tag` in CDSMotif.from_biopython;
+  -- an empty tool: refused by `AntismashFeature.__init__`
+  if tag.isEmpty then throw (match kind with | .asDomain => "value-error" | .motif => "assertion")
+  else if tool.isEmpty then throw "value-error"
+  else
+    -- Domain.from_biopython
+    let l := Q.erase (Q.erase l "protein_start") "protein_end"
+    let domain ← firstOr l "aSDomain"
+    let l := Q.erase l "aSDomain"
+    let asf := canonSet ((Q.get? l "ASF").getD [])
+    let l := Q.erase l "ASF"
+    -- AntismashFeature.from_biopython
+    let domainId ← firstOr l "domain_id"
+    let l := Q.erase l "domain_id"
+    let database ← firstOr l "database"
+    let l := Q.erase l "database"
+    let detection ← firstOr l "detection"
+    let l := Q.erase l "detection"
+    let label ← firstOr l "label"
+    let l := Q.erase l "label"
+    let translation ← firstOr l "translation"
+    let l := Q.erase l "translation"
+    if translation.toList.contains '*' then throw "value-error"
+    else
+      let evalue ← popNumber l "evalue"
+      let l := Q.erase l "evalue"
+      let score ← popNumber l "score"
+      let l := Q.erase l "score"
+      let feat ← applyLeftovers ⟨b.loc, kind.type, [], [], true, none⟩ l
+      let domainId := (orNone domainId).map noSpaces
+      if kind == .asDomain && (domainId.getD "").isEmpty then throw "assertion"
+      else pure ⟨feat, tool, tag, ps, pe, orNone domain, asf, domainId, orNone database, orNone detection,
+                 (orNone label).map noSpaces, evalue, score, translation⟩
+
 end ASV.Serial
